@@ -12,11 +12,27 @@ bind, session, message/presence/iq with any from/to, stream close) plus `deliver
 its i-th outstanding reply" — in any order, including stanzas before authentication and elements sent while
 a checker reply is still outstanding.  No hypothesis on the script.
 
-History: before repo commits 73b9a89 and e590a14 three of the five claims were false (pre-authentication
-stanza routed / bind / session answered; a checker reply applied to a later SASL exchange); the witnesses of the
-old `C16_defect_*` theorems are kept as the first scripts of the harness corpus.
-`Out.ub` marks a place where the C++ has undefined behaviour (SASL2 success with a reset `sasl2AuthRequest`);
-the model closes the connection there, so nothing is claimed about what the real process does after it.
+What is proved, exactly:
+* `auth_only_if_checker_approved` — a non-empty jid is "u@domain cut at its first '/'", optionally followed by
+  "/resource", for a user name `u` whose credential the checker approved.  NOT proved, and false today
+  (`C16_defect_username_with_slash`): that this is literally `u@domain[/resource]`; it is when no approved name
+  contains '/' (`*_literal_partial`).  The server does not reject names containing '/' or '@'
+  (finding C16:username-with-slash, fixes/C16-username-chars.diff).  A PLAIN authorization identity is ignored.
+* `needs_auth_only_authenticated` (+ `routes_`/`bind_only_authenticated`) — unconditional.
+* `from_is_authenticated_jid`, `cannot_spoof`, `replies_addressed_to_sender`, `cannot_spoof_approved` — for EVERY
+  server state and every interleaving of any number of connections: the `from` of a routed/delivered stanza is
+  the sending connection's own server-side jid or its `jidToBareJid`; comparison is exact (another case, another
+  resource, another connection of the same user: dropped).
+* `Out.ub` marks the places where the C++ has undefined behaviour: a SASL2 success with an unset
+  `sasl2AuthRequest` (finding C16:sasl2-request-unset), and a write through a routing-table entry that outlived its
+  connection (finding C16:stale-routing-entry; both crash the real server).  Nothing is claimed about the real
+  process after such a point.
+* Out of scope: server-to-server (`QXmppIncomingServer`/`QXmppOutgoingServer`, dialback) — the modelled server
+  has no S2S listener, stanzas for other domains are not routed; server extensions; TLS.
+
+History: the four findings of the first round (pre-authentication stanza routed / bind / session answered;
+checker reply applied to a later SASL exchange) were fixed by repo commits 73b9a89 and e590a14; their witnesses
+are the first scripts of the harness corpus.
 -/
 namespace Qx.C16
 
@@ -54,6 +70,22 @@ theorem jidOf_plain (cfg : Cfg) (u j : List Char) (h : JidOf cfg u j) (hu : '/' 
   rcases h with h | ⟨r, h⟩
   · exact Or.inl h
   · exact Or.inr ⟨r, by rw [h, withRes, bareOf_eq_self _ hu]⟩
+
+/-- "u@domain" or "u@domain/resource", literally -/
+def CleanJid (cfg : Cfg) (u j : List Char) : Prop :=
+  j = mkBare u cfg.domain ∨ ∃ r, j = mkBare u cfg.domain ++ '/' :: r
+
+/-- **auth_only_if_checker_approved, literal form (partial).**  FULL STATEMENT (false today, see
+`C16_defect_username_with_slash`): the jid is literally `u@domain` or `u@domain/resource` for an approved `u`.
+PROVED HERE under the hypothesis that no name the checker approves for this connection (nor the domain) contains
+'/': the server itself does not reject such names (fixes/C16-username-chars.diff makes it do so). -/
+theorem auth_only_if_checker_approved_literal_partial (cfg : Cfg) (ops : List (Nat × Ev)) (c : Nat)
+    (hname : ∀ u, Approved cfg ops c u → '/' ∉ mkBare u cfg.domain) :
+    ((run cfg init ops).1.conns c).jid ≠ [] →
+      ∃ u, Approved cfg ops c u ∧ CleanJid cfg u ((run cfg init ops).1.conns c).jid := by
+  intro hj
+  obtain ⟨u, hu, hjid⟩ := auth_only_if_checker_approved cfg ops c hj
+  exact ⟨u, hu, jidOf_plain cfg u _ hjid (hname u hu)⟩
 
 /-! ## 2. nothing is bound, routed or answered before authentication -/
 
@@ -133,7 +165,81 @@ theorem cannot_spoof_approved (cfg : Cfg) (ops : List (Nat × Ev)) (op : Nat × 
   obtain ⟨u, hu, hj⟩ := auth_only_if_checker_approved cfg ops src hne
   exact ⟨u, hu, hj, hfrom⟩
 
-/-! ## 4. concrete runs: the statements are about real, non-trivial scripts -/
+/-- **cannot_spoof, literal form (partial).**  FULL STATEMENT (false today, `C16_defect_slash_name_spoofs`): the
+`from` of a delivered stanza is literally `u@domain` or `u@domain/resource` for a user `u` approved for the
+sending connection.  PROVED HERE under the same hypothesis: no approved name (nor the domain) contains '/'. -/
+theorem cannot_spoof_literal_partial (cfg : Cfg) (ops : List (Nat × Ev)) (op : Nat × Ev)
+    (src dst : Nat) (st : Stanza) (h : Out.deliver src dst st ∈ (step cfg (run cfg init ops).1 op).2)
+    (hname : ∀ u, Approved cfg ops src u → '/' ∉ mkBare u cfg.domain) :
+    ∃ u, Approved cfg ops src u ∧ CleanJid cfg u st.sender := by
+  obtain ⟨u, hu, hjid, hfrom⟩ := cannot_spoof_approved cfg ops op src dst st h
+  have hn := hname u hu
+  have hclean := jidOf_plain cfg u _ hjid hn
+  refine ⟨u, hu, ?_⟩
+  rcases hfrom with hf | hf
+  · rw [hf]; exact hclean
+  · rw [hf]
+    rcases hclean with hc | ⟨r, hc⟩
+    · rw [hc, bareOf_eq_self _ hn]; exact Or.inl rfl
+    · left
+      rw [hc]
+      have : bareOf (mkBare u cfg.domain ++ '/' :: r) = bareOf (mkBare u cfg.domain) := by
+        have h1 := bareOf_withRes (mkBare u cfg.domain) r
+        rw [withRes, bareOf_eq_self _ hn] at h1
+        rw [h1, bareOf_eq_self _ hn]
+      rw [this, bareOf_eq_self _ hn]
+
+/-! ## 4. what today's code does instead (defects, with witnesses) -/
+
+/-- a checker with the account "v"/"p" and — as a registration-open or pass-through checker would allow — an
+account literally named "v@d/x" (password "q") -/
+def slashCfg : Cfg :=
+  { domain := ['d']
+    check := fun u p =>
+      if (u = ['v'] ∧ p = ['p']) ∨ (u = ['v', '@', 'd', '/', 'x'] ∧ p = ['q']) then .ok else .bad
+    digestOf := fun _ => .nouser }
+
+/-- **Defect (C16:username-with-slash).**  The literal form of `auth_only_if_checker_approved` is false for
+today's code: a connection approved as the user "v@d/x" gets the jid "v@d/x@d"; `jidToBareJid` cuts it at the
+first '/', so after a bind it is `v@d/r` — an address of the user "v", for whom nothing was approved. -/
+theorem C16_defect_username_with_slash :
+    ¬ (∀ (cfg : Cfg) (ops : List (Nat × Ev)) (c : Nat), ((run cfg init ops).1.conns c).jid ≠ [] →
+        ∃ u, Approved cfg ops c u ∧ CleanJid cfg u ((run cfg init ops).1.conns c).jid) := by
+  intro h
+  have hjid : ((run slashCfg init [(1, .openStream ['d']),
+      (1, .auth false ['P', 'L', 'A', 'I', 'N'] (.creds ['v', '@', 'd', '/', 'x'] ['q']) false), (1, .deliver 0),
+      (1, .bind ['r'])]).1.conns 1).jid = ['v', '@', 'd', '/', 'r'] := by decide
+  obtain ⟨u, ⟨ev, hm, ha⟩, hj⟩ := h slashCfg [(1, .openStream ['d']),
+      (1, .auth false ['P', 'L', 'A', 'I', 'N'] (.creds ['v', '@', 'd', '/', 'x'] ['q']) false), (1, .deliver 0),
+      (1, .bind ['r'])] 1 (by rw [hjid]; decide)
+  rw [hjid] at hj
+  simp only [List.mem_cons, List.not_mem_nil, or_false, Prod.mk.injEq, true_and] at hm
+  have hu : u = ['v', '@', 'd', '/', 'x'] := by
+    rcases hm with rfl | rfl | rfl | rfl
+    · simp [Approves, Ev.payload] at ha
+    · simp only [Approves, Ev.payload] at ha
+      exact ha.1.symm
+    · simp [Approves, Ev.payload] at ha
+    · simp [Approves, Ev.payload] at ha
+  subst hu
+  rcases hj with hj | ⟨r, hj⟩
+  · exact absurd hj (by decide)
+  · simp [mkBare, slashCfg] at hj
+
+/-- …and it speaks for "v": with the real "v" logged in (connection 0), the connection approved as "v@d/x" sends
+a message with `from='v@d'` (accepted: it is the "bare" form of its jid) which is delivered to v's own client —
+and would be delivered to anybody else — as coming from `v@d`. -/
+theorem C16_defect_slash_name_spoofs :
+    Out.deliver 1 0 { kind := .message, sender := ['v', '@', 'd'], to := ['v', '@', 'd', '/', 'h'] } ∈
+      (run slashCfg init
+        [(0, .openStream ['d']), (0, .auth false ['P', 'L', 'A', 'I', 'N'] (.creds ['v'] ['p']) false), (0, .deliver 0),
+         (0, .bind ['h']),
+         (1, .openStream ['d']), (1, .auth false ['P', 'L', 'A', 'I', 'N'] (.creds ['v', '@', 'd', '/', 'x'] ['q']) false),
+         (1, .deliver 0),
+         (1, .stanza { kind := .message, sender := ['v', '@', 'd'], to := ['v', '@', 'd', '/', 'h'] })]).2 := by
+  decide
+
+/-! ## 5. concrete runs: the statements are about real, non-trivial scripts -/
 
 /-- a checker that knows one account: user "m" with password "p" (digest token "h") -/
 def demoCfg : Cfg :=
